@@ -339,7 +339,8 @@ def block_diagonalize(
         for j in range(H.shape[1]):
             if i == j or (hermitian and i > j):
                 continue
-            block = H[(i, j, *zero_order)]
+            # A ready-made BlockSeries may contain ordinary zero matrices.
+            block = _convert_if_zero(H[(i, j, *zero_order)], atol)
             if block is not zero:
                 if isinstance(block, (sympy.MatrixBase, sympy.Expr)):
                     # This may happen if the expression wasn't simplified enough.
